@@ -57,7 +57,9 @@ theorem rom_walk (cr : CryptoOps) (hl : CryptoLaws cr) (sg : Signer) (fuel : Nat
              else walk5 s L n1 n2 n3 n4 n5 (offs c.ivtOff c.signedBlocks)) ∧
       (isEnc c.flags = true →
         slice (csfBytes c.version b.cmds) (L 6) n6 = macBlob c.version c.nonce (encMac cr c) ∧
-        n6 = (macBlob c.version c.nonce (encMac cr c)).length) := by
+        n6 = (macBlob c.version c.nonce (encMac cr c)).length) ∧
+      HabRom.disjoint (if isEnc c.flags then [(L 6, n6), (L 5, n5), (L 4, n4), (L 3, n3), (L 2, n2), (L 1, n1)]
+                       else [(L 5, n5), (L 4, n4), (L 3, n3), (L 2, n2), (L 1, n1)]) = true := by
   have hf := flags_cases c.flags h.flags
   have hcsf : c.hasCsf = true := by rw [h.csf]; simpa using ha
   have hau : isAuth c.flags = true := by rw [hf.1]; simpa using ha
@@ -75,6 +77,9 @@ theorem rom_walk (cr : CryptoOps) (hl : CryptoLaws cr) (sg : Signer) (fuel : Nat
       some (macBlob c.version c.nonce (encMac cr c))⟩ else none)
     (by intro e he; split at he <;> simp at he; subst he; rfl)
   rw [← hF] at hA
+  have hasc := refsOf_ascending c.version b.cmds hfit
+  rw [hA, refsOf_std s hs.extras] at hasc
+  have hdis := disjoint_reverse_of_ascending _ hasc
   -- data references
   have dr : ∀ (cc : CsfCmd) (d : Bytes) (t p : Nat) (body : Bytes) (what : String),
       cc ∈ assignLocs (csfHdrLen b.cmds) b.cmds → needsRef cc.cmd = true → cc.data = some d → t < 256 → p < 256 →
@@ -107,7 +112,10 @@ theorem rom_walk (cr : CryptoOps) (hl : CryptoLaws cr) (sg : Signer) (fuel : Nat
     have d6 := dr _ (macBlob c.version c.nonce (encMac cr c)) Hab.Spec.tagMAC c.version _ "MAC" hmem6 rfl rfl (by decide) hv
       (macBlob_form _ _ _)
     have hb6 := (blob_at_loc c.version b.cmds hfit _ hmem6 rfl _ rfl).1
-    refine ⟨L, x, s.srkBlob.length, s.csfCert.length, (sigBlob c.version x).length, s.imgCert.length, (sigBlob c.version (sg.data b.msgData)).length, (macBlob c.version c.nonce (encMac cr c)).length, hR, ?_, fun _ => ⟨hb6, rfl⟩⟩
+    refine ⟨L, x, s.srkBlob.length, s.csfCert.length, (sigBlob c.version x).length, s.imgCert.length, (sigBlob c.version (sg.data b.msgData)).length, (macBlob c.version c.nonce (encMac cr c)).length, hR, ?_, fun _ => ⟨hb6, rfl⟩, ?_⟩
+    rotate_left
+    · simp only [he, ↓reduceIte] at hdis ⊢
+      simpa using hdis
     rw [hA]
     simp only [he, ↓reduceIte]
     have := walk_std (csfBytes c.version b.cmds) (csfHdrLen b.cmds) (c.start + c.ivtOff) (c.start + c.ivtOff + c.csfOff) s
@@ -119,7 +127,10 @@ theorem rom_walk (cr : CryptoOps) (hl : CryptoLaws cr) (sg : Signer) (fuel : Nat
           exact ⟨hs.kek, hs.keySlot, by simp [blockPairs, Cfg.encryptedBlocks], d6, hoE⟩)
     exact this
   · -- authenticated only
-    refine ⟨L, x, s.srkBlob.length, s.csfCert.length, (sigBlob c.version x).length, s.imgCert.length, (sigBlob c.version (sg.data b.msgData)).length, 0, hR, ?_, fun hh => absurd hh he⟩
+    refine ⟨L, x, s.srkBlob.length, s.csfCert.length, (sigBlob c.version x).length, s.imgCert.length, (sigBlob c.version (sg.data b.msgData)).length, 0, hR, ?_, fun hh => absurd hh he, ?_⟩
+    rotate_left
+    · simp only [he, Bool.false_eq_true, ↓reduceIte] at hdis ⊢
+      simpa using hdis
     rw [hA]
     simp only [he, Bool.false_eq_true, ↓reduceIte]
     have := walk_std (csfBytes c.version b.cmds) (csfHdrLen b.cmds) (c.start + c.ivtOff) (c.start + c.ivtOff + c.csfOff) s
@@ -127,5 +138,212 @@ theorem rom_walk (cr : CryptoOps) (hl : CryptoLaws cr) (sg : Signer) (fuel : Nat
       _ _ _ _ _ 0 (offs c.ivtOff c.signedBlocks) [] d1 d2 d3 d4 d5 hs.srkSrc hs.imgSlot hbdne hoD
       (by intro e hee; cases hee)
     exact this
+
+
+/-- `finish` succeeds when every one of its checks holds -/
+theorem finish_ok (cr : CryptoOps) (img region : Bytes) (v : View) (csfOff hdrLen dcdLen xmcdLen : Nat) (w : Walk)
+    (dek : Option Bytes) (nm : Bytes × Bytes) (plain : Option Bytes)
+    (h1 : w.csfSig.isSome = true) (h2 : w.dataSig.isSome = true) (h3 : HabRom.disjoint w.refs = true)
+    (h4 : HabRom.disjoint (w.auth ++ w.dec) = true) (h5 : HabRom.covered (w.auth ++ w.dec) 0 64 = true)
+    (h6 : HabRom.covered (w.auth ++ w.dec) 64 dcdLen = true) (h7 : HabRom.covered (w.auth ++ w.dec) 64 xmcdLen = true)
+    (h8 : HabRom.nzCov (w.auth ++ w.dec) csfOff 0 img = true)
+    (h9 : (decide (v.self ≤ v.entry) && HabRom.inBlocks (w.auth ++ w.dec) (v.entry - v.self)) = true)
+    (h10 : (v.blen == v.self - v.start + img.length + (if w.macRef.isSome then 0x200 else 0)) = true)
+    (h11 : HabRom.secretOk w.secretLoc w.macRef v.csf = true)
+    (h12 : HabRom.readMac region w.macRef = .ok nm)
+    (h13 : HabRom.decryptBlocks cr img w nm.1 nm.2 dek = .ok plain) :
+    HabRom.finish cr img region v csfOff hdrLen dcdLen xmcdLen w dek =
+      .ok { ivtSelf := v.self, start := v.start, csfOff := csfOff, hdrLen := hdrLen, srk := w.srk, csfCert := w.csfCert,
+            csfSig := w.csfSig, imgCert := w.imgCert, dataSig := w.dataSig, msgCsf := region.take hdrLen,
+            msgData := HabRom.gather img w.auth, authBlocks := w.auth, decBlocks := w.dec, nonce := nm.1, mac := nm.2,
+            plain := plain } := by
+  unfold HabRom.finish
+  simp only []
+  rw [chk_of _ _ _ h1, chk_of _ _ _ h2, chk_of _ _ _ h3, chk_of _ _ _ h4, chk_of _ _ _ h5, chk_of _ _ _ h6,
+    chk_of _ _ _ h7, chk_of _ _ _ h8, chk_of _ _ _ h9, chk_of _ _ _ h10, chk_of _ _ _ h11, h12, bindE_ok, h13, bindE_ok]
+
+/-- nonce and MAC as the reader takes them out of the MAC block -/
+theorem readMac_blob (region : Bytes) (o n v : Nat) (nonce mac : Bytes)
+    (hs : slice region o n = macBlob v nonce mac) (hn : n = (macBlob v nonce mac).length)
+    (hnl : 7 ≤ nonce.length ∧ nonce.length ≤ 13) (hml : 4 ≤ mac.length ∧ mac.length ≤ 16 ∧ mac.length % 2 = 0) :
+    HabRom.readMac region (some (o, n)) = .ok (nonce, mac) := by
+  have hlen : (macBlob v nonce mac).length = 8 + nonce.length + mac.length := by simp [macBlob]; omega
+  have e : macBlob v nonce mac = (hdr Hab.Spec.tagMAC (8 + nonce.length + mac.length) v ++ [0]) ++ [u8 nonce.length] ++
+      ([0] ++ [u8 mac.length] ++ nonce ++ mac) := by simp [macBlob, List.append_assoc]
+  have e2 : macBlob v nonce mac = (hdr Hab.Spec.tagMAC (8 + nonce.length + mac.length) v ++ [0, u8 nonce.length, 0]) ++
+      [u8 mac.length] ++ (nonce ++ mac) := by simp [macBlob, List.append_assoc]
+  have e3 : macBlob v nonce mac = (hdr Hab.Spec.tagMAC (8 + nonce.length + mac.length) v ++ [0, u8 nonce.length, 0, u8 mac.length]) ++
+      nonce ++ mac := by simp [macBlob, List.append_assoc]
+  have e4 : macBlob v nonce mac = (hdr Hab.Spec.tagMAC (8 + nonce.length + mac.length) v ++ [0, u8 nonce.length, 0, u8 mac.length] ++
+      nonce) ++ mac ++ [] := by simp [macBlob, List.append_assoc]
+  have r5 : u8at region (o + 5) = .ok nonce.length := u8at_of_slice _ _ _ (by omega) (by
+    rw [← slice_slice _ o n 5 1 (by omega), hs, e]
+    exact slice_append_mid' _ _ _ 5 1 (by simp) rfl)
+  have r7 : u8at region (o + 7) = .ok mac.length := u8at_of_slice _ _ _ (by omega) (by
+    rw [← slice_slice _ o n 7 1 (by omega), hs, e2]
+    exact slice_append_mid' _ _ _ 7 1 (by simp) rfl)
+  have s1 : sub region (o + 8) nonce.length = nonce := by
+    rw [sub_eq_slice, ← slice_slice _ o n 8 nonce.length (by omega), hs, e3]
+    exact slice_append_mid' _ _ _ 8 _ (by simp) rfl
+  have s2 : sub region (o + 8 + nonce.length) mac.length = mac := by
+    rw [sub_eq_slice, Nat.add_assoc, ← slice_slice _ o n (8 + nonce.length) mac.length (by omega), hs, e4]
+    exact slice_append_mid' _ _ _ _ _ (by simp; omega) rfl
+  simp only [HabRom.readMac]
+  rw [r5, bindE_ok, r7, bindE_ok, chk_of _ _ _ (by simp; omega), chk_of _ _ _ (by simp; omega), s1, s2]
+
+
+/-- **the ROM-side reader accepts what the builder exports** (standard authenticated / encrypted container) -/
+theorem rom_accepts_lemma (cr : CryptoOps) (hl : CryptoLaws cr) (sg : Signer) (fuel : Nat) (c : Cfg) (b : Built)
+    (s : StdCsf) (h : c.WF) (hs : StdCfg c s) (ha : c.flags ≠ 0) (hb : build cr sg fuel c = some b)
+    (hfit : CsfWF c.version b.cmds)
+    (hd : ∀ d, c.dcd = some d → DcdWF d) (hx : ∀ x, c.xmcd = some x → XmcdWF x)
+    (hm : macLenOk c.macLen = true) (hn : 7 ≤ c.nonce.length ∧ c.nonce.length ≤ 13) (hver : c.version / 16 = 4)
+    (hentry : c.start + c.ils ≤ c.entry ∧ c.entry < c.start + c.ils + c.appBin.length) :
+    ∃ r, HabRom.habCheck cr (exportImage c b) (if isEnc c.flags then some c.dek else none) = .ok r ∧
+      r.msgCsf = b.msgCsf ∧ r.msgData = b.msgData ∧ r.plain = (if isEnc c.flags then some c.appBin else none) ∧
+      r.csfOff = c.csfOff ∧ r.hdrLen = csfHdrLen b.cmds ∧ r.authBlocks = offs c.ivtOff c.signedBlocks ∧
+      r.decBlocks = (if isEnc c.flags then offs c.ivtOff c.encryptedBlocks else []) := by
+  have hf := flags_cases c.flags h.flags
+  have hcsf : c.hasCsf = true := by rw [h.csf]; simpa using ha
+  have hau : isAuth c.flags = true := by rw [hf.1]; simpa using ha
+  have happ := build_app_length cr hl sg fuel c b h hb ha hm
+  have hcl : c.hasCsf = true → (csfBytes c.version b.cmds).length = HabConsts.csfSize := fun _ => csfBytes_length _ _ hfit
+  obtain ⟨_, pSelf, _, _, _, pDcd, pDcd0, _, pAppOff, _, pCsf, _, pBs, _, pBl⟩ := ivt_points_lemma c b h happ hcl
+  obtain ⟨hcsfp, hbef, hreg, hilen⟩ := pCsf hcsf
+  have hV := readView_export c b h happ hcl
+  have hFL := frontLens_export c b h happ hcl hd hx
+    { entry := c.entry, dcd := c.ivt.dcd, self := c.start + c.ivtOff, csf := c.ivt.csf, start := c.start, blen := c.bdt.length }
+    ⟨rfl, rfl⟩
+  obtain ⟨hin, hasc, hc0, hcd, hcx, hca⟩ := blocks_cover_lemma c h ha
+  have hin' : ∀ bl ∈ c.allBlocks, c.ivtOff ≤ bl.start := fun bl hbl => (hin bl hbl).2.1
+  obtain ⟨L, x, n1, n2, n3, n4, n5, n6, hR, hW, hMac, hdis⟩ := rom_walk cr hl sg fuel c b s h hs ha hb hfit
+  obtain ⟨hH0, hH1, hH3⟩ := csf_header_read c.version b.cmds hfit
+  obtain ⟨hmc, hmt, _, hmg⟩ := auth_csf_lemma cr sg fuel c b hb hcsf hau
+  obtain ⟨hmd, _⟩ := auth_data_lemma cr sg fuel c b h hb ha
+  have hge := appOff_ge c h
+  have hnz := h.nonzero
+  have e8 : HabConsts.csfSize = 8192 := rfl
+  have hao := appOff_eq c
+  have hle := h.ivtLe
+  -- the image
+  generalize himg : exportImage c b = img at *
+  have hpad : imagePadded c b.app (some (csfBytes c.version b.cmds)) = zeros c.ivtOff ++ img := by
+    rw [← himg]; unfold imagePadded exportImage; rw [hcsf]; rfl
+  have hcsfne : c.ivt.csf ≠ 0 := by rw [hcsfp, pSelf]; omega
+  have hoff : c.ivt.csf - (c.start + c.ivtOff) = c.csfOff := by rw [hcsfp, pSelf]; omega
+  have hregion : sub img c.csfOff 0x2000 = csfBytes c.version b.cmds := by
+    rw [sub_eq_slice]; rw [hcsfp, Nat.add_sub_cancel_left, e8] at hreg; exact hreg
+  -- facts about the block lists as the reader sees them
+  have hd4 : HabRom.disjoint (offs c.ivtOff c.allBlocks) = true := disjoint_offs _ _ hin' hasc
+  have hc5 : HabRom.covered (offs c.ivtOff c.allBlocks) 0 64 = true := covered_offs _ _ 0 64 hin' (by simpa using hc0)
+  have hc6 : HabRom.covered (offs c.ivtOff c.allBlocks) 64 (dcdLenOf c) = true := by
+    unfold dcdLenOf
+    cases hdd : c.dcd with
+    | some d => exact covered_offs _ _ 64 d.length hin' (hcd d hdd)
+    | none => simp [HabRom.covered]
+  have hc7 : HabRom.covered (offs c.ivtOff c.allBlocks) 64 (xmcdLenOf c) = true := by
+    unfold xmcdLenOf
+    cases hxx : c.xmcd with
+    | some x => exact covered_offs _ _ 64 x.length hin' (hcx x hxx)
+    | none => simp [HabRom.covered]
+  have hc8 : HabRom.nzCov (offs c.ivtOff c.allBlocks) c.csfOff 0 img = true := by rw [← himg]; exact nzCov_export c b h ha happ
+  have hc9 : (decide (c.start + c.ivtOff ≤ c.entry) && HabRom.inBlocks (offs c.ivtOff c.allBlocks) (c.entry - (c.start + c.ivtOff))) = true := by
+    have hib := inBlocks_offs c.ivtOff c.allBlocks c.appOff c.appBin.length (c.entry - (c.start + c.ivtOff)) hin' hca
+      ⟨by omega, by omega⟩
+    simp [hib]; omega
+  have hgS : HabRom.gather img (offs c.ivtOff c.signedBlocks) = b.msgData := by
+    rw [gather_offs _ _ _ (fun bl hbl => hin' bl (by unfold Cfg.allBlocks; simp [hbl])), hmd, hpad]
+  have hmsgC : (csfBytes c.version b.cmds).take (csfHdrLen b.cmds) = b.msgCsf := hmt
+  have hlen4 : 4 ≤ csfHdrLen b.cmds := by unfold csfHdrLen; omega
+  -- run the reader
+  unfold HabRom.habCheck
+  rw [hV, bindE_ok, hFL, bindE_ok]
+  simp only []
+  rw [if_neg hcsfne, chk_of _ _ _ (by simp; rw [hcsfp, pSelf]; omega)]
+  rw [hoff, hregion, chk_of _ _ _ (by simp; omega), hH0, bindE_ok, hH1, bindE_ok, hH3, bindE_ok,
+    chk_of _ _ _ (by simp [hver, hlen4]), hR, bindE_ok]
+  have hcsfeq : c.ivt.csf = c.start + c.ivtOff + c.csfOff := by rw [hcsfp, pSelf]
+  rw [hcsfeq, hW, bindE_ok]
+  by_cases he : isEnc c.flags = true
+  · -- encrypted
+    simp only [he, ↓reduceIte]
+    have h12 : c.flags = 12 := by
+      rcases h.flags with h0 | h0 | h0
+      · exact absurd h0 ha
+      · rw [hf.2.1, h0] at he; cases he
+      · exact h0
+    obtain ⟨c0, hml, _, _, hdec⟩ := enc_restores_explicit cr sg fuel c b h hb h12 hl hm
+    have hmlr := (macLenOk_iff c.macLen).1 hm
+    obtain ⟨hms, hmn⟩ := hMac he
+    have hall : (offs c.ivtOff c.signedBlocks) ++ (offs c.ivtOff c.encryptedBlocks) = offs c.ivtOff c.allBlocks := by
+      unfold Cfg.allBlocks offs; simp [he]
+    have hrm := readMac_blob (csfBytes c.version b.cmds) (L 6) n6 c.version c.nonce (encMac cr c) hms hmn hn
+      (by rw [hml]; exact hmlr)
+    have hgE : HabRom.gather img (offs c.ivtOff c.encryptedBlocks) =
+        blocksData (imagePadded c b.app (some (csfBytes c.version b.cmds))) c.encryptedBlocks := by
+      rw [gather_offs _ _ _ (fun bl hbl => hin' bl (by unfold Cfg.allBlocks; simp [hbl, he])), hpad]
+    have hdb : HabRom.decryptBlocks cr img
+        (walk7 s L n1 n2 n3 n4 n5 n6 (offs c.ivtOff c.signedBlocks) (offs c.ivtOff c.encryptedBlocks) (secretKeyLocN c.ils c.app.length c.start))
+        c.nonce (encMac cr c) (some c.dek) = .ok (some c.appBin) := by
+      simp only [HabRom.decryptBlocks, walk7, Option.isSome_some, ↓reduceIte]
+      rw [hgE, hml, hdec]
+    have hsec : HabRom.secretOk (some (secretKeyLocN c.ils c.app.length c.start)) (some (L 6, n6)) (c.start + c.ivtOff + c.csfOff) = true := by
+      simp only [HabRom.secretOk, secret_key_loc_lemma c h, e8]
+      simp
+    have hfin := finish_ok cr img (csfBytes c.version b.cmds)
+      { entry := c.entry, dcd := c.ivt.dcd, self := c.start + c.ivtOff, csf := c.start + c.ivtOff + c.csfOff, start := c.start, blen := c.bdt.length }
+      c.csfOff (csfHdrLen b.cmds) _ _
+      (walk7 s L n1 n2 n3 n4 n5 n6 (offs c.ivtOff c.signedBlocks) (offs c.ivtOff c.encryptedBlocks) (secretKeyLocN c.ils c.app.length c.start))
+      (some c.dek) (c.nonce, encMac cr c) (some c.appBin) rfl rfl
+      (by have := hdis; simp only [he, ↓reduceIte] at this; exact this)
+      (by simp only [walk7]; rw [hall]; exact hd4) (by simp only [walk7]; rw [hall]; exact hc5)
+      (by simp only [walk7]; rw [hall]; exact hc6) (by simp only [walk7]; rw [hall]; exact hc7)
+      (by simp only [walk7]; rw [hall]; exact hc8) (by simp only [walk7]; rw [hall]; exact hc9)
+      (by simp only [walk7, Option.isSome_some, ↓reduceIte]; rw [pBl, hilen]; simp [he, HabConsts.keyblobSize, e8] <;> omega)
+      hsec hrm hdb
+    rw [hfin]
+    exact ⟨_, rfl, hmsgC, hgS, rfl, rfl, rfl, rfl, rfl⟩
+  · -- authenticated
+    simp only [he, Bool.false_eq_true, ↓reduceIte]
+    have hall : (offs c.ivtOff c.signedBlocks) ++ [] = offs c.ivtOff c.allBlocks := by
+      unfold Cfg.allBlocks offs; simp [he]
+    have hfin := finish_ok cr img (csfBytes c.version b.cmds)
+      { entry := c.entry, dcd := c.ivt.dcd, self := c.start + c.ivtOff, csf := c.start + c.ivtOff + c.csfOff, start := c.start, blen := c.bdt.length }
+      c.csfOff (csfHdrLen b.cmds) _ _
+      (walk5 s L n1 n2 n3 n4 n5 (offs c.ivtOff c.signedBlocks)) none ([], []) none rfl rfl
+      (by have := hdis; simp only [he, Bool.false_eq_true, ↓reduceIte] at this; exact this)
+      (by simp only [walk5]; rw [hall]; exact hd4) (by simp only [walk5]; rw [hall]; exact hc5)
+      (by simp only [walk5]; rw [hall]; exact hc6) (by simp only [walk5]; rw [hall]; exact hc7)
+      (by simp only [walk5]; rw [hall]; exact hc8) (by simp only [walk5]; rw [hall]; exact hc9)
+      (by simp only [walk5]; rw [pBl, hilen]; simp [he, e8] <;> omega)
+      rfl rfl rfl
+    rw [hfin]
+    exact ⟨_, rfl, hmsgC, hgS, rfl, rfl, rfl, rfl, rfl⟩
+
+/-- an unsigned container: the reader accepts the layout -/
+theorem rom_accepts_plain_lemma (cr : CryptoOps) (c : Cfg) (b : Built) (h : c.WF) (h0 : c.flags = 0)
+    (happ : b.app.length = c.appBin.length)
+    (hd : ∀ d, c.dcd = some d → DcdWF d) (hx : ∀ x, c.xmcd = some x → XmcdWF x)
+    (hentry : c.start + c.ivtOff ≤ c.entry ∧ c.entry < c.start + c.ils + c.appBin.length) :
+    HabRom.habCheck cr (exportImage c b) none =
+      .ok (HabRom.plainReport { entry := c.entry, dcd := c.ivt.dcd, self := c.start + c.ivtOff, csf := 0, start := c.start,
+                                blen := c.bdt.length }) := by
+  have hf := flags_cases c.flags h.flags
+  have hcsf : c.hasCsf = false := by rw [h.csf, h0]; rfl
+  have hcl : c.hasCsf = true → (csfBytes c.version b.cmds).length = HabConsts.csfSize := fun hh => by rw [hcsf] at hh; cases hh
+  obtain ⟨_, pSelf, _, _, _, _, _, _, _, _, _, pNoCsf, pBs, _, pBl⟩ := ivt_points_lemma c b h happ hcl
+  obtain ⟨hcsf0, hilen⟩ := pNoCsf hcsf
+  have hV := readView_export c b h happ hcl
+  have hFL := frontLens_export c b h happ hcl hd hx
+    { entry := c.entry, dcd := c.ivt.dcd, self := c.start + c.ivtOff, csf := c.ivt.csf, start := c.start, blen := c.bdt.length }
+    ⟨rfl, rfl⟩
+  have hao := appOff_eq c
+  have hle := h.ivtLe
+  have he : isEnc c.flags = false := by rw [hf.2.1, h0]; rfl
+  generalize exportImage c b = img at *
+  unfold HabRom.habCheck
+  rw [hV, bindE_ok, hFL, bindE_ok]
+  simp only []
+  rw [if_pos hcsf0, chk_of _ _ _ (by rw [pBl, hilen]; simp [he]), chk_of _ _ _ (by simp; rw [hilen, happ]; omega), hcsf0]
 
 end SpsdkVerif.Hab
